@@ -9,11 +9,11 @@
 EXTENDS Sanitize, IOUtils
 Obs == JsonDeserialize(IOEnv.OBS_FILE)
 Units == Obs.units      \* [name, cfg, form, redacted]
-Runs == Obs.runs        \* [cfg, sanitize, routes : <<[route, name, present : [console, curl, junit, vcr, har]]>>]
+Runs == Obs.runs        \* [cfg, sanitize, routes : <<[route, name, k (slot), present : [console, curl, junit, vcr, har]]>>]
 Hists == Obs.hists      \* [steps : <<[kind, op, name]>>, outs : <<[step, form, redacted]>>] - one process, re-configured on the way
 VARIABLES what, i
 jvars == <<vars, what, i>>
-JInit == /\ kind = "judge" /\ nameIx = 0 /\ cfgKind = "-" /\ route = "-" /\ sink = "-" /\ sanitize = TRUE
+JInit == /\ kind = "judge" /\ nameIx = 0 /\ cfgKind = "-" /\ route = "-" /\ sink = "-" /\ sanitize = TRUE /\ sens = FALSE /\ omitted = FALSE
          /\ \/ what = "unit" /\ i \in 1..Len(Units)
             \/ what = "run" /\ i \in 1..Len(Runs)
             \/ what = "hist" /\ i \in 1..Len(Hists)
@@ -25,7 +25,7 @@ UnitVerdict == LET u == Units[i] IN
                ELSE {<<u.form, "-", IF u.redacted THEN "over-redacted" ELSE "leak">>}
 RunVerdict == LET r == Runs[i] IN
               UNION {LET x == r.routes[k] IN
-                     {<<x.route, s, IF Expected(x.route, s, x.name, r.sanitize, Cfg(r.cfg)) = "absent" THEN "leak" ELSE "missing">>
+                     {<<x.route, s, IF Expected(x.route, s, x.name, r.sanitize, Cfg(r.cfg)) = "absent" THEN "leak" ELSE "missing", x.k>>
                         : s \in {s \in Sinks : LET e == Expected(x.route, s, x.name, r.sanitize, Cfg(r.cfg)) IN
                                                (e = "absent" /\ x.present[s]) \/ (e = "present" /\ ~x.present[s])}}
                      : k \in 1..Len(r.routes)}
